@@ -37,6 +37,68 @@ def selftest():
         assert m[0] == n[0] and (n[1] is None or m[2] == n[2])
 
 
+def _pt_depth(pt):
+    return 0 if not pt[1] else 1 + max(_pt_depth(c) for c in pt[1])
+
+
+def mexpr_instance_case(rnd, g, cg, md, name):
+    """A tree that contains an *instance of a deep match expression* with an open leaf cut INSIDE the region the
+    match expression constrains: whether the quantifier matches then depends on how the leaf is expanded, on one
+    or several levels of a (possibly recursive) nonterminal.  Returns a case dict or None."""
+    R = rt.reach(cg)
+    inner = [k for k in cg if k != "<start>" and any(rt.is_nt(x) for a in cg[k] for x in a)]
+    if not inner:
+        return None
+    rec = [k for k in inner if k in R[k]]
+    fg = fml.FGen(rnd, cg, {}, dict(mexpr_depth=rnd.randint(3, 5)))
+    for _ in range(8):
+        T = pick(rnd, rec) if rec and chance(rnd, 0.7) else pick(rnd, inner)
+        pt = fg.rand_prefix(T, fg.o["mexpr_depth"])
+        if _pt_depth(pt) < 2:
+            continue
+        mx, binds = fg.prefix_to_mexpr(pt)
+        if not mx or not binds or any(e[0] == "text" and not set(e[1]) <= fml.SAFE_MEXPR_CHARS for e in mx):
+            continue
+        if len(fml.abstract_parses(cg, T, fml.mexpr_word(mx), cap=3)) != 1:
+            continue
+
+        def fill(n):
+            if n[1] is None:
+                return gen.tree(rnd, cg, n[0], rnd.randint(1, 3), md)
+            return [n[0], [fill(c) for c in n[1]]]
+
+        inst = fill(pt)
+        host = gen.tree(rnd, cg, "<start>", rnd.randint(2, 5), md, bias=0.85)
+        spots = [p for p, n in rt.nodes(host) if n[0] == T]
+        if not spots:
+            continue
+        at = pick(rnd, spots)
+        Tfull = rt.assign_ids(rt.replace(host, at, inst))[0]
+        # cut inside the instance where the match-expression tree has structure (inner nonterminal nodes)
+        inner_paths = [p for p, n in rt.nodes(list(pt) if False else pt) if p and rt.is_nt(n[0]) and n[1]]
+        if not inner_paths:
+            continue
+        cp = pick(rnd, inner_paths)
+        node = rt.sub(Tfull, tuple(at) + tuple(cp))
+        P = rt.replace(Tfull, tuple(at) + tuple(cp), [node[0], None, node[2]])
+        if chance(rnd, 0.3):
+            P = gen.cut(rnd, P, 0.1)
+        comps = [gen.complete(rnd, cg, P, depth=rnd.randint(1, 4), md=md) for _ in range(N_COMPLETIONS)]
+        lits = fml.sample_lits(cg, [Tfull] + comps)
+        fg2 = fml.FGen(rnd, cg, lits)
+        fg2.cnt = 50
+        body = fg2.atom(binds)
+        if len(binds) >= 2 and chance(rnd, 0.5):
+            body = ["smt", ["=", ["var", binds[0][0]], ["var", binds[1][0]]]]
+        if chance(rnd, 0.5):
+            body = ["not", body]
+        f = [pick(rnd, ["forall", "exists"]), T, "q1", "start", mx, body]
+        if chance(rnd, 0.25):
+            f = ["not", f]
+        return {"grammar": g, "gname": name, "tree": Tfull, "prefix": P, "completions": comps, "formula": f, "template": "mexpr_instance"}
+    return None
+
+
 def generate(rnd, tier):
     r = rnd.random()
     if r > 0.4:
@@ -47,6 +109,10 @@ def generate(rnd, tier):
         g = gen.grammar(rnd, max_nts=5, alphabet=c03.ALPHA)
     cg = rt.canon(g)
     md = rt.min_depths(cg)
+    if chance(rnd, 0.25):
+        case = mexpr_instance_case(rnd, g, cg, md, name)
+        if case is not None:
+            return case
     T = None
     for _ in range(3):
         c = gen.tree(rnd, cg, "<start>", rnd.randint(2, 6), md, bias=0.85)
@@ -64,7 +130,7 @@ def generate(rnd, tier):
     comps = [gen.complete(rnd, cg, P, depth=rnd.randint(1, 4), md=md) for _ in range(N_COMPLETIONS)]
     trees = [T] + comps
     lits = fml.sample_lits(cg, trees)
-    fg = fml.FGen(rnd, cg, lits, dict(numq=0.0, unused=0.03, count=chance(rnd, 0.25), mexpr=0.5, p_forall=pick(rnd, [0.2, 0.35, 0.5]),
+    fg = fml.FGen(rnd, cg, lits, dict(numq=0.0, unused=0.03, count=chance(rnd, 0.25), mexpr=0.5, p_forall=pick(rnd, [0.2, 0.35, 0.5]), mexpr_depth=pick(rnd, [2, 2, 3, 4, 5]),
                                       connectives=("and", "or", "not", "implies", "iff", "xor")[:rnd.randint(3, 6)]))
     f = fg.formula([("start", "<start>")], rnd.randint(1, 3))
     if chance(rnd, 0.2):
@@ -111,6 +177,8 @@ def judge(case):
     qtypes = {x[1] for x in fml.walk(f) if x[0] in ("forall", "exists")}
     relevant = any(q in open_labels or q in R.get(o, set()) for q in qtypes for o in open_labels)
     labels.append("relevant_quantifier" if relevant else "no_relevant_quantifier")
+    if case.get("template"):
+        labels.append("template:" + case["template"])
     if any(x[0] == "count" for x in fml.walk(f)):
         labels.append("count")
     if any(x[0] in ("forall", "exists") and x[4] is not None for x in fml.walk(f)):
